@@ -236,3 +236,31 @@ Fixpoint flat_after_index (parts : list string) : bool :=
 
 Definition guard_F4 (ne : list (string * string)) : bool :=
   existsb (fun a => flat_after_index (split_dot (fst a))) ne.
+
+
+(** C20-F4 narrowed to where the defect shows (used by the evaluator; the
+    theorems keep the syntactic [guard_F4]): a variable continues with two or more
+    name segments below a list index AND (neither defaults nor file hold a map at
+    that list element, so the dotted key is never resolved — or another variable
+    addresses the same element with the same first name segment, so a dotted key
+    and its expansion meet in one map and Unflatten's iteration order decides). *)
+Definition is_map_node (n : node) : bool := match n with NMap => true | _ => false end.
+
+Fixpoint f4_sites (pre parts : list string) : list (list string * string) :=
+  match parts with
+  | [] => []
+  | p :: r =>
+      (if is_num p && (2 <=? length (name_prefix r)) then [(pre ++ [p], hd EmptyString r)] else [])
+      ++ f4_sites (pre ++ [p]) r
+  end.
+
+Definition guard_F4n (d f : list (key * cfg)) (ne : list (string * string)) : bool :=
+  existsb (fun a =>
+    existsb (fun site =>
+      negb (is_map_node (view (psegs (fst site)) (Map d)) || is_map_node (view (psegs (fst site)) (Map f)))
+      || existsb (fun b => negb (String.eqb (fst a) (fst b) && String.eqb (snd a) (snd b)) &&
+                           match strip_prefix (psegs (fst site ++ [snd site])) (parse_path (fst b)) with
+                           | Some _ => true
+                           | None => false
+                           end) ne)
+    (f4_sites [] (split_dot (fst a)))) ne.
